@@ -1,23 +1,41 @@
 """Registry entry for C08."""
 
 PROP = dict(
-    module="JadeModel.Props.C08", ns="Jade.C08",
+    module="JadeModel.Props.C08Faults", ns="Jade.C08",
     required=["C08_code_shape", "C08_lock_files_not_collected", "C08_lock_discipline", "C08_blocked_is_stutter", "C08_collector_never_blocked",
               "C08_conservation", "C08_no_loss", "C08_reported_once", "C08_no_collector_raises",
               "C08_no_misattribution", "C08_parse_render", "C08_header_iff_absent", "C08_bytes_refine",
-              "C08_files_parse", "C08_final"],
+              "C08_files_parse", "C08_final",
+              # under injected I/O errors, kills and broken stale markers (Props/C08Faults.lean)
+              "C08_fault_shape", "C08_no_loss_under_faults", "C08_no_loss_under_faults_file",
+              "C08_removed_only_after_copied", "C08_reported_at_most_once_under_faults",
+              "C08_one_collection_under_faults", "C08_injected_error_propagates", "C08_failed_read_propagates", "C08_dead_does_nothing",
+              "C08_faultfree_is_base", "C08_faultfree_is_base_bytes",
+              "C08_bytes_refine_under_faults", "C08_files_parse_under_faults"],
     suites=["results"],
     level_text="Machine-checked Lean theorems, by induction over arbitrary operation lists (every interleaving of any "
                "number of appending runners, batches, rows and collecting/cancelling submitter rounds, unbounded), at "
                "lock-operation and file-mutation granularity, over a model whose statement order, lock usage, header "
                "test, open modes, glob pattern and field list are regenerated from the source on every run; the "
                "skeleton is tied by running the real ResultsAggregator on real files under a deterministic scheduler "
-               "and comparing files byte-wise after every operation.",
+               "and comparing files byte-wise after every operation. The same for histories with injected I/O "
+               "errors (read of a node file, append-open / write of the consolidated file, os.remove), kills of a "
+               "collector at every yield point and inside a step, and broken stale markers: no row is ever lost and a "
+               "node file is removed only after its rows are in the consolidated file (at-least-once), no row is ever "
+               "reported twice and at most one collection (alive or dead) is in progress, by induction "
+               "over arbitrary such histories; tied by the same suite with the failures injected at the file "
+               "operations of the real code and the real exception propagation.",
     level_note="Trusted: Lean kernel (+propext, Classical.choice, Quot.sound), tools/extract.py, the results "
                "correspondence suite (cooperative marker-file lock, baton scheduler, fake clock). Outside the model: "
                "atomicity of a small buffered write on the real filesystem; SoftFileLock mutual exclusion and stale-"
-               "marker breaking on a distributed filesystem; crashes inside a lock section; clear_results_for_"
-               "resubmission / clear_unsuccessful_results (rewrite the consolidated file without the lock: C13).",
+               "marker breaking on a distributed filesystem (the model breaks exactly the markers of dead processes); torn "
+               "writes (a failure or death in the middle of a write larger than the io buffer); failures and kills of "
+               "appending runners and of cancellations (only collections are faulted); under faults the byte-level "
+               "refinement theorem covers histories that start with the consolidated file created (a 0-byte file left "
+               "by a failed write when it did not exist is tied by the correspondence only); clear_results_for_resubmission / clear_unsuccessful_results (rewrite the "
+               "consolidated file without the lock: C13). Under faults exactly-once does NOT hold on the unchanged "
+               "code and is not claimed: a death between copy and removal or a failed os.remove duplicates the rows "
+               "of that one file, and an aborted round reports nothing (rows it had moved are reported to no round).",
     assumptions=[
         "every access to a results file goes through the entry points the translator audits (append/append_result, "
         "process_results, move_results, get_results); nothing else removes node files while a collection runs",
@@ -34,5 +52,8 @@ PROP = dict(
                 "HpcSubmitter._cancel_job as baton-scheduled threads on real files with a cooperative O_EXCL marker "
                 "lock, yielding at lock acquisitions and file mutations, and compares file bytes, parsed rows, lock "
                 "markers and process_results() return values with the Lean driver after every operation; the direct "
-                "oracle states conservation / exactly-once reporting / parseability on the same observations.",
+                "oracle states conservation / exactly-once reporting / parseability on the same observations; on "
+                "histories with injected failures / kills it states never-lost, never-garbled and never-reported-twice "
+                "at every instant, and exactly-once up to the rows of the one node file whose removal failed or whose "
+                "collector died between copy and removal.",
 )
